@@ -53,6 +53,10 @@ fn main() {
         "C13" => props::c13::run(tier, seed),
         "C14" => props::c14::run(tier, seed),
         "C11" => props::c11::run(tier, seed),
+        "C11-proc" => props::c11::run_proc(
+            args.get(2).and_then(|s| s.parse().ok()).unwrap_or(1),
+            args.get(3).map(|s| s == "rev").unwrap_or(false),
+        ),
         "C20" => props::c20::run(tier, seed),
         "replay" => {
             let path = args.get(2).unwrap_or_else(|| usage());
